@@ -832,6 +832,10 @@ class Crystal(object):
             # reconstruct `t` as a rational vector; if fail, kick out
             T = np.around(M*t).astype(int)
             if not self.__isclose__(t, T/M): continue
+            # the cell construction below needs the smallest non-zero component of T to divide M;
+            # other translations (non-generators) are skipped--a suitable one always exists
+            Tmin = min((abs(v) for v in T if v != 0), default=0)
+            if Tmin == 0 or M % Tmin != 0: continue
             t = T/M
             trans = True
             for atomlist, spinlist in zip(self.basis, spins):
